@@ -1,7 +1,7 @@
 /-
 Spike: Bit Machine (bit-cell level) vs. denotational semantics for the core combinators.
 -/
-namespace BM3
+namespace BM4
 
 inductive Ty | one | sum (a b : Ty) | prod (a b : Ty)
 deriving DecidableEq, Repr
@@ -185,8 +185,11 @@ def copy (n : Nat) (m : M) : Except Err M :=
   if n = 0 then .ok m else
   match m.read, m.write with
   | r :: _, w :: ws =>
-    .ok { m with cells := copyCells m.cells r.cursor w.cursor n,
-                 write := { w with cursor := w.cursor + n } :: ws }
+    -- `Frame::copy_from` indexes the buffer: outside it the Rust code panics
+    if r.cursor + n ≤ m.cap ∧ w.cursor + n ≤ m.cap then
+      .ok { m with cells := copyCells m.cells r.cursor w.cursor n,
+                   write := { w with cursor := w.cursor + n } :: ws }
+    else .error .crash
   | _, _ => .error .crash
 
 /-- `new_write_frame`, with the two debug assertions turned into crashes -/
@@ -209,7 +212,7 @@ def dropRead (m : M) : Except Err M :=
 def peek (m : M) : Except Err Bool :=
   match m.read with
   | [] => .error .crash
-  | r :: _ => .ok (m.cells r.cursor)
+  | r :: _ => if r.cursor < m.cap then .ok (m.cells r.cursor) else .error .crash
 
 def slice (cells : Nat → Bool) (c : Nat) : Nat → List Bool
   | 0 => []
@@ -272,7 +275,7 @@ def run : {a b : Ty} → Term a b → M → Except Err M
   | _, b, .word w, m => writeBits (padded b w) m
   | a, _, .jet jf _, m =>
       -- `exec_jet`: read `a.bw` bits (and `back`), call the jet, write its output bit by bit
-      if a.bw ≠ 0 ∧ m.read = [] then .error .crash else
+      if (a.bw ≠ 0 ∧ m.read = []) ∨ m.cap < rcur m + a.bw then .error .crash else
       match jf (slice m.cells (rcur m) a.bw) with
       | none => .error .fail
       | some out => writeBits out m
@@ -429,4 +432,4 @@ theorem copyCells_spec (cells : Nat → Bool) (src dst n : Nat)
       have := hd (i+1) (j+1) (by omega) (by omega)
       omega
 
-end BM3
+end BM4
